@@ -30,6 +30,42 @@ pub(crate) fn validate_values(
     value_of_correct_type(diagnostics, schema, ty, &argument.value, var_defs);
 }
 
+/// Input Object Field Uniqueness
+fn unique_input_object_fields(
+    diagnostics: &mut DiagnosticList,
+    obj: &[(crate::Name, Node<ast::Value>)],
+) {
+    for (index, (name, _)) in obj.iter().enumerate() {
+        if let Some((original, _)) = obj[..index].iter().find(|(other, _)| other == name) {
+            diagnostics.push(
+                name.location(),
+                DiagnosticData::UniqueInputValue {
+                    name: name.clone(),
+                    original_definition: original.location(),
+                    redefined_definition: name.location(),
+                },
+            );
+        }
+    }
+}
+
+fn unique_nested_input_object_fields(diagnostics: &mut DiagnosticList, value: &ast::Value) {
+    match value {
+        ast::Value::Object(obj) => {
+            unique_input_object_fields(diagnostics, obj);
+            for (_, value) in obj {
+                unique_nested_input_object_fields(diagnostics, value);
+            }
+        }
+        ast::Value::List(list) => {
+            for value in list {
+                unique_nested_input_object_fields(diagnostics, value);
+            }
+        }
+        _ => {}
+    }
+}
+
 pub(crate) fn value_of_correct_type(
     diagnostics: &mut DiagnosticList,
     schema: &crate::Schema,
@@ -42,19 +78,7 @@ pub(crate) fn value_of_correct_type(
     };
 
     if let ast::Value::Object(obj) = &**arg_value {
-        // Input Object Field Uniqueness
-        for (index, (name, _)) in obj.iter().enumerate() {
-            if let Some((original, _)) = obj[..index].iter().find(|(other, _)| other == name) {
-                diagnostics.push(
-                    name.location(),
-                    DiagnosticData::UniqueInputValue {
-                        name: name.clone(),
-                        original_definition: original.location(),
-                        redefined_definition: name.location(),
-                    },
-                );
-            }
-        }
+        unique_input_object_fields(diagnostics, obj);
     }
 
     match &**arg_value {
@@ -216,7 +240,13 @@ pub(crate) fn value_of_correct_type(
             }
         }
         ast::Value::Object(obj) => match &type_definition {
-            schema::ExtendedType::Scalar(scalar) if !scalar.is_built_in() => {}
+            schema::ExtendedType::Scalar(scalar) if !scalar.is_built_in() => {
+                // Any value is valid for a custom scalar,
+                // but object literals nested in it still need unique field names
+                for (_, value) in obj {
+                    unique_nested_input_object_fields(diagnostics, value);
+                }
+            }
             schema::ExtendedType::InputObject(input_obj) => {
                 let undefined_field = obj
                     .iter()
